@@ -201,6 +201,13 @@ struct State {
     closed: RefCell<Vec<usize>>,
     ext_done: Arc<AtomicUsize>,
     ext_closed: Arc<Mutex<Vec<usize>>>,
+    /// clients whose connect has completed (compio tasks / std thread)
+    connected: Cell<usize>,
+    ext_connected: Arc<AtomicUsize>,
+    /// std clients whose read timed out: neither acknowledged nor closed
+    ext_stuck: Arc<Mutex<Vec<usize>>>,
+    /// the program ended with connections that a dropped incoming() stream had closed
+    finished_early: Cell<bool>,
     used_drop: Cell<bool>,
     used_cancel: Cell<bool>,
     used_multi: Cell<bool>,
@@ -418,6 +425,7 @@ async fn client<L: Lis>(ctx: Rc<Ctx>, st: Rc<State>, addr: L::Addr, i: usize, de
             return;
         }
     };
+    st.connected.set(st.connected.get() + 1);
     ctx.tick();
     let BufResult(r, _) = s.c_write_all(st.nonce(i).to_vec()).await;
     if r.is_err() {
@@ -458,6 +466,10 @@ fn run_l<L: Lis>(p: &AcceptProg, lim: &Limits) -> Outcome {
         closed: RefCell::new(Vec::new()),
         ext_done: Arc::new(AtomicUsize::new(0)),
         ext_closed: Arc::new(Mutex::new(Vec::new())),
+        connected: Cell::new(0),
+        ext_connected: Arc::new(AtomicUsize::new(0)),
+        ext_stuck: Arc::new(Mutex::new(Vec::new())),
+        finished_early: Cell::new(false),
         used_drop: Cell::new(false),
         used_cancel: Cell::new(false),
         used_multi: Cell::new(false),
@@ -509,6 +521,8 @@ fn run_l<L: Lis>(p: &AcceptProg, lim: &Limits) -> Outcome {
                 let nonces: Vec<[u8; 8]> = (0..p.n).map(|i| st.nonce(i)).collect();
                 let done = st.ext_done.clone();
                 let closed = st.ext_closed.clone();
+                let connected = st.ext_connected.clone();
+                let stuck = st.ext_stuck.clone();
                 let a = addr.clone();
                 *thread.borrow_mut() = Some(std::thread::spawn(move || {
                     // connect everything first: the connections pile up in the backlog
@@ -526,9 +540,11 @@ fn run_l<L: Lis>(p: &AcceptProg, lim: &Limits) -> Outcome {
                                 }
                                 let _ = s.write_all(n);
                                 socks.push((i, s));
+                                connected.fetch_add(1, Ordering::SeqCst);
                             }
                             Err(_) => {
                                 closed.lock().unwrap().push(i);
+                                connected.fetch_add(1, Ordering::SeqCst);
                                 done.fetch_add(1, Ordering::SeqCst);
                             }
                         }
@@ -537,6 +553,9 @@ fn run_l<L: Lis>(p: &AcceptProg, lim: &Limits) -> Outcome {
                         let mut b = [0u8; 1];
                         match s.read(&mut b) {
                             Ok(1) if b[0] == 0xAC => {}
+                            Err(e) if matches!(e.kind(), io::ErrorKind::WouldBlock | io::ErrorKind::TimedOut) => {
+                                stuck.lock().unwrap().push(*i)
+                            }
                             _ => closed.lock().unwrap().push(*i),
                         }
                         done.fetch_add(1, Ordering::SeqCst);
@@ -555,7 +574,7 @@ fn run_l<L: Lis>(p: &AcceptProg, lim: &Limits) -> Outcome {
     };
     let ext = {
         let st = st.clone();
-        move || st.ext_done.load(Ordering::SeqCst) as u64
+        move || (st.ext_done.load(Ordering::SeqCst) + st.ext_connected.load(Ordering::SeqCst)) as u64
     };
     let stall = {
         let st = st.clone();
@@ -578,11 +597,26 @@ fn run_l<L: Lis>(p: &AcceptProg, lim: &Limits) -> Outcome {
                 let mut lost: Vec<usize> = st.closed.borrow().clone();
                 lost.extend(st.ext_closed.lock().unwrap().iter().copied());
                 lost.sort_unstable();
+                if st.used_drop.get() && st.ext_stuck.lock().unwrap().is_empty() {
+                    // Dropping an incoming() stream cancels it: connections the kernel had accepted for it
+                    // may be closed instead of yielded, and every such peer has observed the close.
+                    st.finished_early.set(true);
+                    return Stall::Finish;
+                }
                 return Stall::Violation(Fail {
                     sig: format!("C14/accept/lost/{}/{}", st.tag, st.mode()),
                     what: format!(
                         "{} clients connected and sent their nonce, the acceptor got {} connections and now waits in {how} with an empty backlog; clients {lost:?} saw their connection closed without ever being yielded (acceptor script so far used: {})",
                         st.n, st.accepted.get(), st.mode()
+                    ),
+                });
+            }
+            if st.connected.get() + st.ext_connected.load(Ordering::SeqCst) >= st.n {
+                return Stall::Violation(Fail {
+                    sig: format!("C14/accept/leaked/{}/{}", st.tag, st.mode()),
+                    what: format!(
+                        "all {} clients are connected, the acceptor got {} connections and waits in {how} with an empty backlog, {} clients were acknowledged or saw a close: the remaining connections were neither yielded nor closed (acceptor script so far used: {})",
+                        st.n, st.accepted.get(), st.clients_finished(), st.mode()
                     ),
                 });
             }
@@ -596,13 +630,31 @@ fn run_l<L: Lis>(p: &AcceptProg, lim: &Limits) -> Outcome {
         let _ = h.join();
     }
     if !ctx.stopped() {
-        // everything finished: every nonce exactly once
+        // every nonce at most once; exactly once unless a dropped stream closed the connection
+        // and its peer observed that
         let seen = st.seen.borrow();
-        if let Some(i) = (0..p.n).find(|i| seen[*i] != 1) {
-            ctx.fail(
-                format!("C14/accept/lost/{tag}/{}", st.mode()),
-                format!("client {i} was yielded {} times", seen[i]),
-            );
+        let mut closed: Vec<usize> = st.closed.borrow().clone();
+        closed.extend(st.ext_closed.lock().unwrap().iter().copied());
+        let stuck = st.ext_stuck.lock().unwrap().clone();
+        for i in 0..p.n {
+            let excused = st.finished_early.get() && seen[i] == 0 && closed.contains(&i) && !stuck.contains(&i);
+            if seen[i] > 1 {
+                ctx.fail(format!("C14/accept/duplicate/{tag}/{}", st.mode()), format!("client {i} was yielded {} times", seen[i]));
+                break;
+            }
+            if seen[i] == 0 && !excused {
+                ctx.fail(
+                    format!("C14/accept/leaked/{tag}/{}", st.mode()),
+                    format!("the connection of client {i} was neither yielded nor observed closed by its peer"),
+                );
+                break;
+            }
+            if excused {
+                ctx.count("accept_closed_by_dropped_stream", 1);
+            }
+        }
+        if st.finished_early.get() {
+            ctx.count("accept_programs_with_drop_closed_connections", 1);
         }
     }
     ctx.count("accept_programs", 1);
